@@ -1575,6 +1575,26 @@ theorem steadyInc_row_length (t : List (List Int)) (w : List Int) :
   obtain ⟨_, _, rfl⟩ := h
   simp
 
+/-! ### round 5: decidability of the block relation, counting -/
+
+instance (im : Inc) (b b' : Block) : Decidable (NoInc im b b') := by
+  unfold NoInc; infer_instance
+
+theorem flatMap_length_of_square {bs : List (List Int × List Int)} (h : ∀ b ∈ bs, b.1.length = b.2.length) :
+    (bs.flatMap (·.1)).length = (bs.flatMap (·.2)).length := by
+  induction bs with
+  | nil => rfl
+  | cons b t ih =>
+    simp only [List.flatMap_cons, List.length_append]
+    rw [h b List.mem_cons_self, ih fun b' hb' => h b' (List.mem_cons_of_mem _ hb')]
+
+/-- the 4×4 matrix on which the order of the pairs prefetched *last* in different rounds matters -/
+def orderMatrix : List (List Bool) :=
+  [[false, false, true,  true ],
+   [false, true,  true,  false],
+   [true,  true,  false, false],
+   [true,  false, false, false]]
+
 /-! ### a worked example (used for the non-vacuity `example`s of Props/C16.lean) -/
 
 /-- a 5×5 matrix with a perfect matching whose decomposition has a prefetched first pair, a 2×2 inner
